@@ -5,7 +5,8 @@ import Hive.Gen.C18_Skel
 
 Property theorems only.  Model: `Hive/Model/Timed.lean` — the protocol model of runtime/timed
 (queue.go, executor.go, taskexecutor.go over `container/heap`) **after** the `fix:` commits of
-`known_findings/C18.json`.  Every theorem quantifies over all configurations reachable from an
+`known_findings/C18.json` (in particular: the queue closes the cancel channel of every element it
+drops, and `Cancel(id)` reports whether its call closed the channel).  Every theorem quantifies over all configurations reachable from an
 initial one: any size bound, any number of worker goroutines (at least one), any number of
 controller goroutines each running an arbitrary script of `ExecuteAt` (tracked or not) /
 `Cancel(id)` / element `Cancel()` / `Shutdown(flags)` calls with arbitrary times, callbacks that
@@ -159,8 +160,12 @@ theorem C18_cancel_true_never_runs {c : Cfg Sh Th} (hr : Reachable c) (x : Nat) 
     ¬ (c.1.log.any (Ev.isRun x) = true ∧ c.1.log.any (Ev.isRevoke x) = true) :=
   okLog_run_revoke (C18_trace_ok hr) x
 
-/-- `TaskExecutor.Cancel(id)` returns true exactly when `id` has a registration. -/
-theorem C18_cancel_result (s : Sh) (i : Nat) : (cancelId s i).lastRes = .bool (regGet s.reg i).isSome := by
+/-- `TaskExecutor.Cancel(id)` returns true exactly when `id` has a registration whose element's cancel
+channel is still open (neither cancelled nor dropped by the queue before). -/
+theorem C18_cancel_result (s : Sh) (i : Nat) :
+    (cancelId s i).lastRes = .bool (match regGet s.reg i with
+      | some x => decide (x ∉ s.closed)
+      | none => false) := by
   unfold cancelId; cases regGet s.reg i <;> rfl
 
 /-- **One pending task per identifier.** Among the heap, the pollers and the delivered-but-not-
@@ -169,11 +174,19 @@ theorem C18_one_pending_per_id {c : Cfg Sh Th} (hr : Reachable c) (i : Nat) :
     pendHeap c.1 i + tsum (pendTh c.1 i) c.2 ≤ 1 :=
   (one_pending hr.all.i1 hr.all.i2 i).1
 
-/-- **Cancel(id) = false ⇒ nothing was pending.** When `id` has no registration (`Cancel(id)` returns
-false, `C18_cancel_result`), no task of `id` is pending anywhere. -/
+/-- **Cancel(id) = false ⇒ nothing was pending.** Whenever `Cancel(id)` returns false — no
+registration, or a registration whose element was cancelled or dropped before — no task of `id` is
+pending anywhere. -/
 theorem C18_cancel_false_nothing_pending {c : Cfg Sh Th} (hr : Reachable c) (i : Nat)
-    (h : regGet c.1.reg i = none) : pendHeap c.1 i + tsum (pendTh c.1 i) c.2 = 0 :=
-  (one_pending hr.all.i1 hr.all.i2 i).2 h
+    (h : (cancelId c.1 i).lastRes = .bool false) : pendHeap c.1 i + tsum (pendTh c.1 i) c.2 = 0 := by
+  rw [C18_cancel_result] at h
+  have hp := one_pending hr.all.i1 hr.all.i2 i
+  cases hg : regGet c.1.reg i with
+  | none => exact hp.2.1 hg
+  | some x =>
+    rw [hg] at h
+    have hx : x ∈ c.1.closed := by simpa using h
+    exact hp.2.2 x hg hx
 
 /-- **Re-scheduling replaces.** After the second half of `ExecuteAt(id)` on a queue that is not shut
 down, `id` is registered to the new element, and (by `C18_one_pending_per_id`,
@@ -190,22 +203,37 @@ theorem C18_reschedule_replaces (s : Sh) (i due : Nat) (kind : Kind) (tag : Nat)
 
 /-- The full statement of "Cancel(id) returns true only when it prevents a pending task": a
 registered task with an open cancel channel is live (in the heap, with a poller, or delivered and
-about to start).  The code does not satisfy it (`C18_cancel_true_size_bound_witness`,
-`C18_cancel_true_after_shutdown_witness`): the queue drops elements without telling the TaskExecutor. -/
+about to start). -/
 def C18_statement : Prop :=
   ∀ c : Cfg Sh Th, Reachable c → ∀ i x, regGet c.1.reg i = some x → x ∉ c.1.closed → 1 ≤ lv x c.1 c.2
 
-/-- **Cancel(id) = true ⇒ a task was pending**, proved under what the code forces: no size bound
-and the queue not shut down.  (Missing for the full statement: elements dropped by the size bound
-or by `CancelPendingElements` keep their registration.) -/
-theorem C18_cancel_true_iff_prevented_partial {c : Cfg Sh Th} (hr : Reachable c) (hm : c.1.maxSize = 0)
-    (hs : c.1.isShutdown = false) {i x : Nat} (hg : regGet c.1.reg i = some x) (hc : x ∉ c.1.closed) :
-    lv x c.1 c.2 = 1 := by
-  have h1 := hr.all.i2.f hm hs i x hg hc
-  have h2 := lv_le_one hr.all.i1 x
-  omega
+/-- The full statement holds (since the queue marks what it drops). -/
+theorem C18_statement_holds : C18_statement :=
+  fun _ hr i x hg hc => hr.all.i2.f i x hg hc
 
-/-! ### witnesses (replayed on the real code by the corpus of harness/c18) -/
+/-- **Cancel(id) = true ⇒ it prevented a pending task**: when `Cancel(id)` returns true, `id` was
+registered to a task that is live in exactly one place — heap, a poller's hands, or delivered and
+about to start — and (by `C18_cancel_true_never_runs`) that task never runs. -/
+theorem C18_cancel_true_iff_prevented {c : Cfg Sh Th} (hr : Reachable c) (i : Nat)
+    (h : (cancelId c.1 i).lastRes = .bool true) :
+    ∃ x, regGet c.1.reg i = some x ∧ x ∉ c.1.closed ∧ lv x c.1 c.2 = 1 ∧
+      (cancelId c.1 i).log = .cancelRes i true (some x) :: .cancelled x :: c.1.log := by
+  rw [C18_cancel_result] at h
+  cases hg : regGet c.1.reg i with
+  | none => rw [hg] at h; simp at h
+  | some x =>
+    rw [hg] at h
+    have hx : x ∉ c.1.closed := by simpa using h
+    have h1 := hr.all.i2.f i x hg hx
+    have h2 := lv_le_one hr.all.i1 x
+    refine ⟨x, rfl, hx, by omega, ?_⟩
+    unfold cancelId
+    simp [hg, hx]
+
+/-! ### witnesses -/
+
+/-- The channels the code *before* the last two fixes had closed: only those closed by a `Cancel`. -/
+def oldClosed (s : Sh) : List Nat := s.closed.filter (fun x => s.log.any (Ev.isCancelled x))
 
 def wSize : Cfg Sh Th :=
   runSched sys (initCfg 1 [.idle, .ctl .ready [.exec 1 5 .plain 10, .exec 2 9 .plain 11, .exec 3 7 .plain 12]])
@@ -214,15 +242,13 @@ def wSize : Cfg Sh Th :=
 theorem wSize_reachable : Reachable wSize :=
   ⟨1, _, ⟨by decide, by decide⟩, runSched_reach _ _ _⟩
 
-/-- Size bound 1: task 1 (identifier 2, due 9) is dropped when task 2 (due 7) arrives, yet identifier
-2 stays registered to it: `Cancel(2)` returns true although nothing is pending. -/
-theorem C18_cancel_true_size_bound_witness :
-    regGet wSize.1.reg 2 = some 1 ∧ 1 ∉ wSize.1.closed ∧ lv 1 wSize.1 wSize.2 = 0 ∧ ¬ C18_statement := by
-  have h : regGet wSize.1.reg 2 = some 1 ∧ 1 ∉ wSize.1.closed ∧ lv 1 wSize.1 wSize.2 = 0 := by decide
-  refine ⟨h.1, h.2.1, h.2.2, ?_⟩
-  intro hst
-  have := hst wSize wSize_reachable 2 1 h.1 h.2.1
-  omega
+/-- Size bound 1: task 1 (identifier 2, due 9) is dropped when task 2 (due 7) arrives and identifier
+2 stays registered to it.  Old behaviour (channels closed only by `Cancel`): the registration is
+open and nothing is live, so `Cancel(2)` returned true with nothing to prevent.  Now the drop
+closes the channel and `Cancel(2)` returns false.  (Replayed on the code by the corpus.) -/
+theorem C18_old_size_bound_witness :
+    regGet wSize.1.reg 2 = some 1 ∧ 1 ∉ oldClosed wSize.1 ∧ lv 1 wSize.1 wSize.2 = 0 ∧
+      1 ∈ wSize.1.closed ∧ (cancelId wSize.1 2).lastRes = .bool false := by decide
 
 def wShut : Cfg Sh Th :=
   runSched sys (initCfg 0 [.idle, .ctl .ready [.exec 1 9 .plain 10, .shutdown { cancel := true, dontWait := true }]])
@@ -232,10 +258,11 @@ theorem wShut_reachable : Reachable wShut :=
   ⟨0, _, ⟨by decide, by decide⟩, runSched_reach _ _ _⟩
 
 /-- `Shutdown(CancelPendingElements)` discards the task held by the poller; its identifier stays
-registered: `Cancel(1)` returns true although nothing is pending. -/
-theorem C18_cancel_true_after_shutdown_witness :
-    regGet wShut.1.reg 1 = some 0 ∧ 0 ∉ wShut.1.closed ∧ lv 0 wShut.1 wShut.2 = 0 ∧
-      wShut.1.log.any (fun ev => ev == .dropSD 0) = true := by decide
+registered.  Old behaviour: `Cancel(1)` returned true although nothing was pending; now false. -/
+theorem C18_old_after_shutdown_witness :
+    regGet wShut.1.reg 1 = some 0 ∧ 0 ∉ oldClosed wShut.1 ∧ lv 0 wShut.1 wShut.2 = 0 ∧
+      wShut.1.log.any (fun ev => ev == .dropSD 0) = true ∧
+      0 ∈ wShut.1.closed ∧ (cancelId wShut.1 1).lastRes = .bool false := by decide
 
 /-! ### progress -/
 
@@ -269,13 +296,17 @@ theorem C18_shutdown_wakes_pollers {c : Cfg Sh Th} (hr : Reachable c) (hs : c.1.
 
 /-! ### non-vacuity -/
 
-/-- A reachable configuration with a registered pending task: hypotheses of the partial theorem. -/
+/-- A reachable configuration in which `Cancel(1)` returns true: hypothesis of `C18_cancel_true_iff_prevented`. -/
 def wPending : Cfg Sh Th :=
   runSched sys (initCfg 0 [.idle, .ctl .ready [.exec 1 9 .plain 10]]) [(1, 0), (1, 0), (0, 0)]
 
-example : Reachable wPending ∧ wPending.1.maxSize = 0 ∧ wPending.1.isShutdown = false ∧
+example : Reachable wPending ∧ (cancelId wPending.1 1).lastRes = .bool true ∧
     regGet wPending.1.reg 1 = some 0 ∧ 0 ∉ wPending.1.closed ∧ lv 0 wPending.1 wPending.2 = 1 :=
   ⟨⟨0, _, ⟨by decide, by decide⟩, runSched_reach _ _ _⟩, by decide⟩
+
+/-- … and one in which it returns false although `id` is registered (hypothesis of
+`C18_cancel_false_nothing_pending`, non-trivial branch). -/
+example : (cancelId wSize.1 2).lastRes = .bool false ∧ regGet wSize.1.reg 2 = some 1 := by decide
 
 /-- A reachable configuration whose log contains a delivery and a run (hypotheses of the trace theorems). -/
 def wRun : Cfg Sh Th :=
@@ -295,34 +326,42 @@ steps are exactly the critical sections below: `Add` checks the shutdown flag *i
 lock and signals after unlocking; `Shutdown` marks under `shutdownMutex`, then (after the context
 cancel) handles the heap and broadcasts *unconditionally* under the heap lock; `Poll` waits on the
 condition in a loop, pops under the lock, selects outside of it and re-checks `isCanceled` before
-every return of a value; `Cancel` removes and closes under the heap lock; the TaskExecutor holds its
+every return of a value; `Cancel` removes and closes under the heap lock; every place where the queue
+discards an element (size bound in `Add`, `CancelPendingElements` in `Shutdown` and in `Poll`)
+closes its cancel channel, and `TaskExecutor.Cancel` returns whether its own call closed it; the TaskExecutor holds its
 mutex across cancel-and-deregister-old / add-new / register-new, its wrapper tests and drops the registration
 under the mutex and calls the callback outside of it. -/
 open Hive.Gen.C18Skel in
 theorem C18_skeleton_add : skel_Queue_Add =
     ["lock t.heapMutex", "if{", "unlock t.heapMutex", "if{", "}if", "return", "}if", "call heap.Push", "if{", "if{",
-      "call heap.Remove", "}if", "}if", "unlock t.heapMutex", "call t.waitCond.Signal", "return"] := by decide
+      "call heap.Remove", "call droppedElement.Value.closeCancel", "}if", "}if", "unlock t.heapMutex",
+      "call t.waitCond.Signal", "return"] := by decide
 
 open Hive.Gen.C18Skel in
 theorem C18_skeleton_shutdown : skel_Queue_Shutdown =
     ["lock t.shutdownMutex", "if{", "defer unlock t.shutdownMutex", "if{", "}if", "return", "}if", "for{", "}for",
-      "unlock t.shutdownMutex", "lock t.heapMutex", "if{", "for{", "call heap.Pop", "}for", "}if",
-      "call t.waitCond.Broadcast", "unlock t.heapMutex"] := by decide
+      "unlock t.shutdownMutex", "lock t.heapMutex", "if{", "for{", "call heap.Pop",
+      "call droppedElement.Value.closeCancel", "}for", "}if", "call t.waitCond.Broadcast", "unlock t.heapMutex"] := by
+  decide
 
 open Hive.Gen.C18Skel in
 theorem C18_skeleton_poll : skel_Queue_Poll =
     ["for{", "lock t.heapMutex", "for{", "if{", "unlock t.heapMutex", "return", "}if", "call t.waitCond.Wait", "}for",
-      "call heap.Pop", "unlock t.heapMutex", "select{", "case recv t.ctx.Done()", "if{", "return", "}if", "if{",
+      "call heap.Pop", "unlock t.heapMutex", "select{", "case recv t.ctx.Done()", "if{",
+      "call polledElement.Value.Cancel", "return", "}if", "if{",
       "helper isCanceled", "if{", "continue", "}if", "return", "}if", "select{",
       "case recv polledElement.Value.cancel", "continue", "case recv timer.C", "helper isCanceled", "if{", "continue",
       "}if", "return", "}select", "case recv polledElement.Value.cancel", "continue", "case recv timer.C",
       "helper isCanceled", "if{", "continue", "}if", "return", "}select", "}for"] := by decide
 
 open Hive.Gen.C18Skel in
-theorem C18_skeleton_cancel : skel_QueueElement_Cancel =
-    ["lock timedQueueElement.timedQueue.heapMutex", "defer unlock timedQueueElement.timedQueue.heapMutex",
-      "helper removeElement", "select{", "case recv timedQueueElement.cancel", "default",
-      "close timedQueueElement.cancel", "}select"] ∧
+theorem C18_skeleton_cancel : skel_QueueElement_Cancel = ["call timedQueueElement.cancelPending"] ∧
+    skel_QueueElement_cancelPending =
+      ["lock timedQueueElement.timedQueue.heapMutex", "defer unlock timedQueueElement.timedQueue.heapMutex",
+        "helper removeElement", "call timedQueueElement.closeCancel", "return"] ∧
+    skel_QueueElement_closeCancel =
+      ["select{", "case recv timedQueueElement.cancel", "return", "default", "close timedQueueElement.cancel", "return",
+        "}select"] ∧
     skel_Queue_removeElement = ["if{", "return", "}if", "call heap.Remove"] ∧
     skel_QueueElement_isCanceled =
       ["select{", "case recv timedQueueElement.cancel", "return", "default", "return", "}select"] := by decide
@@ -342,6 +381,6 @@ theorem C18_skeleton_taskexecutor : skel_TaskExecutor_ExecuteAt =
       "}if", "}func", "call t.Executor.ExecuteAt", "if{", "call t.queuedElements.Set", "}if", "return"] ∧
     skel_TaskExecutor_Cancel =
       ["lock t.queuedElementsMutex", "defer unlock t.queuedElementsMutex", "call t.queuedElements.Get", "if{",
-        "return", "}if", "call queuedElement.Cancel", "call t.queuedElements.Delete", "return"] := by decide
+        "return", "}if", "call t.queuedElements.Delete", "call queuedElement.cancelPending", "return"] := by decide
 
 end Hive.Timed
